@@ -694,3 +694,106 @@ def short(x, n=300):
   except Exception:
     s = '<%s: repr failed>' % type(x).__name__
   return s if len(s) <= n else s[:n] + '...(%d chars)' % len(s)
+
+
+# ---- deterministic gallery: one or more specimens of every shape (for enumerate_cases) ----------
+def gallery(profile='encode'):
+  g = [None, True, False, 0, 1, -1, 2 ** 31 - 1, 2 ** 31, -2 ** 31, -2 ** 31 - 1, 2 ** 53 + 1, 2 ** 63, 2 ** 64, -10 ** 30,
+       {'k': 'pow', 'b': 10, 'e': 309, 'add': 0, 'neg': False}, {'k': 'pow', 'b': 10, 'e': 400, 'add': 0, 'neg': True},
+       {'k': 'pow', 'b': 10, 'e': 4299, 'add': 0, 'neg': False}, {'k': 'pow', 'b': 10, 'e': 5000, 'add': 1, 'neg': False},
+       0.0, -0.0, 0.5, 1.0, 2147483648.0, -2147483648.5, 9007199254740993.0, 1e22, 1.7976931348623157e308, 5e-324,
+       float('nan'), float('inf'), float('-inf'), 1577836800.0, 253402300800.0, -62135596800.0,
+       '', ' ', 'abc', '12', ' 12 ', '1.5', '1e3', '1_000', '٣', 'nan', 'inf', '1e400', '2147483648', 'true', 'No', '0',
+       '2020-01-01', '2020-01-01T12:34:56', '2020-01-01 12:34:56.789Z', '2020-01-01T12:34:56+05:30', '2020-02-30',
+       '0001-01-01', '9999-12-31', '10000-01-01', '[]', '[1, 2]', '["a","b"]', '[0]', '[null]', '[1,', '{"a":1}',
+       'RecordList([1, 2], group_by=None, sort_by=None)', 'RecordList([])', 'Tbl[1]', '\ud800', 'é \x00', 'x' * 300,
+       {'k': 'bytes', 'v': ''}, {'k': 'bytes', 'v': 'abc'}, {'k': 'bytes', 'v': '12'}, {'k': 'bytes', 'v': '\xff'},
+       {'k': 'bytes', 'v': '\x01\x02'}, {'k': 'bytes', 'v': '2020-01-01'},
+       {'k': 'date', 'v': [2019, 0, 0]}, {'k': 'date', 'v': [0, 0, 0]}, {'k': 'date', 'v': [9998, 11, 27]},
+       {'k': 'date', 'v': [1968, 11, 27]},
+       {'k': 'dt', 'v': [2019, 4, 0, 1, 2, 3, 0], 'tz': None}, {'k': 'dt', 'v': [2019, 4, 0, 1, 2, 3, 123456], 'tz': None},
+       {'k': 'dt', 'v': [0, 0, 0, 0, 0, 0, 0], 'tz': None}, {'k': 'dt', 'v': [9998, 11, 27, 23, 59, 59, 999999], 'tz': None},
+       {'k': 'dt', 'v': [2019, 4, 0, 1, 2, 3, 0], 'tz': 'UTC'}, {'k': 'dt', 'v': [2019, 4, 0, 1, 2, 3, 0], 'tz': 'America/New_York'},
+       {'k': 'dt', 'v': [2019, 10, 2, 1, 30, 0, 0], 'tz': 'America/New_York'},
+       {'k': 'dt', 'v': [2019, 4, 0, 1, 2, 3, 500000], 'tz': 'Asia/Kolkata'},
+       {'k': 'dt', 'v': [2019, 4, 0, 1, 2, 3, 0], 'tz': 'Australia/Lord_Howe'},
+       {'k': 'dt', 'v': [2010, 11, 29, 12, 0, 0, 0], 'tz': 'Pacific/Apia'},
+       {'k': 'dt', 'v': [0, 0, 0, 0, 0, 0, 0], 'tz': 'Asia/Kolkata'}, {'k': 'dt', 'v': [9998, 11, 27, 23, 0, 0, 0], 'tz': 'Pacific/Apia'},
+       {'k': 'dt', 'v': [1899, 11, 27, 0, 0, 0, 0], 'tz': 'Europe/London'},
+       {'k': 'dt', 'v': [2019, 4, 0, 1, 2, 3, 0], 'tz': 719}, {'k': 'dt', 'v': [2019, 4, 0, 1, 2, 3, 0], 'tz': 1049},
+       {'k': 'dt', 'v': [2019, 4, 0, 1, 2, 3, 0], 'tz': 0}, {'k': 'dt', 'v': [0, 0, 0, 0, 0, 0, 0], 'tz': 1438},
+       {'k': 'alt', 'v': ''}, {'k': 'alt', 'v': 'abc'}, {'k': 'alt', 'v': '12'}, {'k': 'alt', 'v': '2020-01-01'},
+       {'k': 'alt', 'v': '[1, 2]'}, {'k': 'alt', 'v': 'true'}, {'k': 'alt', 'v': '["a"]'},
+       {'k': 'exc', 'cls': 0, 'msg': 'boom'}, {'k': 'exc', 'cls': 3, 'msg': ''}, {'k': 'exc', 'cls': 6, 'msg': 'x'},
+       {'k': 'exc', 'cls': 7, 'msg': 'bad'}, {'k': 'exc', 'cls': 0, 'msg': 'm', 'inp': None},
+       {'k': 'exc', 'cls': 0, 'msg': 'm', 'inp': 'text'}, {'k': 'exc', 'cls': 1, 'msg': 'm', 'inp': [1, 'a']},
+       {'k': 'exc', 'cls': 1, 'msg': 'm', 'inp': {'k': 'date', 'v': [2019, 0, 0]}},
+       {'k': 'exc', 'cls': 1, 'msg': 'm', 'inp': {'k': 'exc', 'cls': 2, 'msg': 'inner', 'inp': 5}},
+       {'k': 'rec', 't': 0, 'row': 0}, {'k': 'rec', 't': 0, 'row': 1}, {'k': 'rec', 't': 0, 'row': 5}, {'k': 'rec', 't': 1, 'row': 2},
+       {'k': 'rset', 't': 0, 'rows': [], 'sort': False}, {'k': 'rset', 't': 0, 'rows': [1, 2], 'sort': False},
+       {'k': 'rset', 't': 0, 'rows': [2, 1], 'sort': True}, {'k': 'rset', 't': 1, 'rows': [1], 'sort': False},
+       {'k': 'rset', 't': 1, 'rows': [], 'sort': True}, {'k': 'rset', 't': 0, 'rows': [0, 5], 'sort': False},
+       {'k': 'obj', 'w': 'pending'}, {'k': 'obj', 'w': 'censored'}, {'k': 'obj', 'w': 'unmarshallable', 'v': 'xyz'},
+       {'k': 'obj', 'w': 'recordstub', 'v': 'Tbl', 'row': 1}, {'k': 'obj', 'w': 'recordstub', 'v': 'Nope', 'row': 0},
+       {'k': 'obj', 'w': 'recordsetstub', 'v': 'Tbl', 'rows': [1, 2]}, {'k': 'obj', 'w': 'reflookup', 'v': 'x'},
+       {'k': 'obj', 'w': 'recordlist', 'rows': [1, 2], 'sort': True}, {'k': 'obj', 'w': 'recordlist', 'rows': [], 'sort': False},
+       [], [1, 2], [1, 'a', None, 2.5], [[]], [[1], [2, [3]]], ['d', 5], ['L'], [0], [True, 2], [1.5], [2 ** 31],
+       {'k': 'tuple', 'v': []}, {'k': 'tuple', 'v': [1, 2]}, {'k': 'tuple', 'v': ['a', 'b']}, {'k': 'tuple', 'v': [[1], {'k': 'tuple', 'v': [2]}]},
+       {'k': 'dict', 'v': []}, {'k': 'dict', 'v': [['a', 1]]}, {'k': 'dict', 'v': [['a', {'k': 'date', 'v': [2019, 0, 0]}], ['b', [1]]]},
+       {'k': 'dict', 'v': [[1, 1]]}, {'k': 'dict', 'v': [[None, 1]]}, {'k': 'dict', 'v': [[True, 1]]}, {'k': 'dict', 'v': [[1.5, 1]]},
+       {'k': 'dict', 'v': [[{'k': 'tuple', 'v': [1, 2]}, 1]]}, {'k': 'dict', 'v': [[{'k': 'bytes', 'v': 'k'}, 1]]},
+       {'k': 'dict', 'v': [['a', 1], [2, 2]]}, {'k': 'dict', 'v': [['', {'k': 'dict', 'v': [['x', None]]}]]},
+       {'k': 'deep', 'w': 'list', 'n': 10, 'leaf': 1}, {'k': 'deep', 'w': 'tuple', 'n': 30, 'leaf': 'x'},
+       {'k': 'deep', 'w': 'list', 'n': 500, 'leaf': 1}, {'k': 'deep', 'w': 'list', 'n': 1400, 'leaf': 1},
+       {'k': 'hostile', 'w': 'plain'}]
+  if profile == 'encode':
+    g += [{'k': 'dict', 'v': [[{'k': 'sub', 'w': 'str', 'v': 'a'}, 1]]},
+          {'k': 'dict', 'v': [['ok', 1], [{'k': 'sub', 'w': 'str', 'v': 'b'}, [1]]]},
+          {'k': 'dict', 'v': [[{'k': 'enum', 'big': False}, 1]]}, {'k': 'dict', 'v': [[float('nan'), 1]]},
+          {'k': 'dict', 'v': [[{'k': 'frozenset', 'v': [1]}, 1]]}, {'k': 'dict', 'v': [[{'k': 'rec', 't': 0, 'row': 1}, 1]]},
+          {'k': 'enum', 'big': False}, {'k': 'enum', 'big': True},
+          {'k': 'set', 'v': []}, {'k': 'set', 'v': [1, 2]}, {'k': 'set', 'v': ['a', None, 1.5]}, {'k': 'frozenset', 'v': [1]},
+          {'k': 'frozenset', 'v': [{'k': 'tuple', 'v': [1]}, {'k': 'date', 'v': [2019, 0, 0]}]},
+          {'k': 'selfref', 'w': 'list', 'v': []}, {'k': 'selfref', 'w': 'dict', 'v': []}, {'k': 'selfref', 'w': 'list', 'v': [1, 'a']},
+          {'k': 'selfref', 'w': 'dict', 'v': [{'k': 'date', 'v': [2019, 0, 0]}]},
+          {'k': 'deep', 'w': 'dict', 'n': 10, 'leaf': 1}, {'k': 'deep', 'w': 'dict', 'n': 500, 'leaf': 1},
+          {'k': 'deep', 'w': 'list', 'n': 990, 'leaf': 1}, {'k': 'deep', 'w': 'list', 'n': 1000, 'leaf': 1},
+          {'k': 'deep', 'w': 'tuple', 'n': 1001, 'leaf': {'k': 'date', 'v': [2019, 0, 0]}},
+          {'k': 'deep', 'w': 'dict', 'n': 995, 'leaf': 1}, {'k': 'deep', 'w': 'dict', 'n': 2000, 'leaf': 1},
+          {'k': 'deep', 'w': 'list', 'n': 1999, 'leaf': 1}, {'k': 'deep', 'w': 'list', 'n': 2001, 'leaf': 1},
+          {'k': 'deep', 'w': 'list', 'n': 3000, 'leaf': 'x'}]
+    g += [{'k': 'sub', 'w': w, 'v': v} for w, v in
+          [('str', 'a'), ('str', ''), ('int', 5), ('int', 2 ** 40), ('float', 1.5), ('float', float('nan')), ('bytes', 'ab'),
+           ('list', [1, 2]), ('tuple', [1, 2]), ('dict', {'k': 'dict', 'v': [['a', 1]]}),
+           ('list', [{'k': 'sub', 'w': 'str', 'v': 'x'}])]]
+    g += [{'k': 'hostile', 'w': w} for w in sorted(HOSTILE) if w != 'plain']
+    g += [{'k': 'misc', 'w': w} for w in ['complex', 'decimal', 'range', 'bytearray', 'ellipsis', 'notimplemented', 'type',
+                                         'function', 'memoryview', 'timedelta', 'time', 'module']]
+  else:
+    g += [{'k': 'sub', 'w': 'str', 'v': '12'}, {'k': 'sub', 'w': 'int', 'v': 5}, {'k': 'sub', 'w': 'float', 'v': 1.5},
+          {'k': 'sub', 'w': 'list', 'v': [1, 2]}, {'k': 'set', 'v': [1, 2]}, {'k': 'frozenset', 'v': ['a']}]
+  return g
+
+
+WRAPPERS = ['id', 'list', 'tuple', 'dictval', 'dictkey', 'set', 'excinp', 'sublist', 'deep5', 'pair']
+
+def wrap(spec, w):
+  if w == 'list':
+    return [spec]
+  if w == 'tuple':
+    return {'k': 'tuple', 'v': [spec]}
+  if w == 'dictval':
+    return {'k': 'dict', 'v': [['a', spec]]}
+  if w == 'dictkey':
+    return {'k': 'dict', 'v': [[spec, 1]]}
+  if w == 'set':
+    return {'k': 'set', 'v': [spec, 1]}
+  if w == 'excinp':
+    return {'k': 'exc', 'cls': 0, 'msg': 'm', 'inp': spec}
+  if w == 'sublist':
+    return {'k': 'sub', 'w': 'list', 'v': [spec]}
+  if w == 'deep5':
+    return {'k': 'deep', 'w': 'dict', 'n': 5, 'leaf': spec}
+  if w == 'pair':
+    return [spec, {'k': 'tuple', 'v': [spec, None]}]
+  return spec
